@@ -1015,3 +1015,16 @@ PLAN['C10']['rule'] += (' Stage ops_missing (spec/ProofOps.tla): map forests cre
 PLAN['C06']['stages'] = (lambda f: (lambda tier, seed: f(tier, seed) + [drive_sparse(tier)]))(PLAN['C06']['stages'])
 PLAN['C06']['rule'] += SPARSE_RULE + (' The moves of tall subtrees are undone and applied again; every fourth history uses a subtree 12 rows tall '
                                       '(4096 leaves), where TLC judges the roots and the partial forests are compared with the full ones.')
+
+
+# --------------------------------------------------------------------------- light client whose proof went through a restriction
+def light_restrict(tier):
+    q = tier == 'quick'
+    return light('light_restrict', ['block', 'undoblock', 'restrict'], 4 if q else 5, 2, stack=1, und=1, timeout=900 if q else 7200)
+
+
+for _p in ('C08', 'C14'):
+    PLAN[_p]['stages'] = (lambda f: (lambda tier, seed: f(tier, seed) + [light_restrict(tier)]))(PLAN[_p]['stages'])
+    PLAN[_p]['rule'] += (' Stage light_restrict: spec/LightClient.tla with the action RestrictProof - the client cuts its cached proof down to some '
+                         'of its leaves in any request order (GetProofSubset keeps the order of the request, which is part of the state until the next '
+                         'block or undo) - followed by further blocks and by Undo.')
